@@ -12,6 +12,8 @@ EXPLANATION = ('DefaultCacheState: (a) every entry entering the LRU queue adds k
                'consumer of the file statistics / metadata caches touches the cached payload only behind the true edge of is_valid_for; '
                '(e) SessionContext::invalidate_caches drops the table\'s entries from both the list-files and the file-statistics cache '
                'and is called from the deregistration paths; (f) get/contains_key return a hit only on the not-expired path. LRU order is not decided.')
+# path rules cut loops after a bounded number of iterations: complete over rule instances, not over all unrollings
+EXHAUSTIVE = False
 ASSUMPTIONS = ['LruQueue::{put,remove,pop,clear} are the only ways entries enter or leave the queue']
 
 DC = 'datafusion_execution::cache::default_cache::'
